@@ -186,8 +186,122 @@ func (e *Env) eval(x Expr) (TV, error) {
 		return TV{mkSlice(sBase(xv.T), add(sOff(xv.T), lo.T), sub(hi.T, lo.T), sub(sCap(xv.T), lo.T)), xv.Typ}, nil
 	case *ECall:
 		return e.call(x)
+	case *EMethod:
+		if id, ok := x.X.(*EIdent); ok && !e.isVariable(id.Name) {
+			// package-qualified macro or Go function
+			return e.call(&ECall{Fn: id.Name + "." + x.Name, Args: x.Args})
+		}
+		recv, err := e.eval(x.X)
+		if err != nil {
+			return TV{}, err
+		}
+		if recv.Typ == nil {
+			return TV{}, fmt.Errorf("method %s on untyped value %s", x.Name, exprString(x.X))
+		}
+		fn := e.vc.lookupMethod(recv.Typ, x.Name)
+		if fn == nil {
+			return TV{}, fmt.Errorf("no method %s on %s", x.Name, recv.Typ)
+		}
+		args := []TV{recv}
+		for _, a := range x.Args {
+			v, err := e.eval(a)
+			if err != nil {
+				return TV{}, err
+			}
+			args = append(args, v)
+		}
+		return e.goCall(fn, args)
 	}
 	return TV{}, fmt.Errorf("unsupported expression %T", x)
+}
+
+// isVariable reports whether a name denotes a bound variable, parameter,
+// local or ghost (as opposed to a package name).
+func (e *Env) isVariable(name string) bool {
+	if _, ok := e.vars[name]; ok {
+		return true
+	}
+	if e.fr != nil {
+		if c, _ := e.fr.cellByName(name, e.cellState()); c != nil {
+			return true
+		}
+		for _, p := range e.fr.fn.Params {
+			if p.Name() == name {
+				return true
+			}
+		}
+		if len(e.fr.allocsByName[name]) > 0 {
+			return true
+		}
+	}
+	if e.vc.specs.ghost(name) != nil {
+		return true
+	}
+	if e.pkg != nil {
+		if obj := e.pkg.Scope().Lookup(name); obj != nil {
+			if _, isVar := obj.(*types.Var); isVar {
+				return true
+			}
+		}
+	}
+	return false
+}
+
+func (vc *VC) lookupMethod(t types.Type, name string) *ssa.Function {
+	for _, tt := range []types.Type{t, types.NewPointer(t)} {
+		ms := vc.prog.SSA.MethodSets.MethodSet(tt)
+		for i := 0; i < ms.Len(); i++ {
+			if ms.At(i).Obj().Name() == name {
+				if _, isPtr := t.Underlying().(*types.Pointer); !isPtr && tt != t {
+					continue // method needs an addressable receiver
+				}
+				return vc.prog.SSA.MethodValue(ms.At(i))
+			}
+		}
+	}
+	return nil
+}
+
+// goCall evaluates a call of a Go function of the repository inside a
+// contract: the function body is translated symbolically on a copy of the
+// current state; its effects are discarded and its own safety obligations are
+// not recorded (they belong to the function's own contract).
+func (e *Env) goCall(fn *ssa.Function, args []TV) (TV, error) {
+	vc := e.vc
+	if e.bound {
+		return TV{}, fmt.Errorf("call of Go function %s under a quantifier is not supported", fn.Name())
+	}
+	if len(fn.Blocks) == 0 {
+		return TV{}, fmt.Errorf("Go function %s has no body", fn.Name())
+	}
+	if fn.Signature.Results().Len() != 1 {
+		return TV{}, fmt.Errorf("Go function %s must have exactly one result to be used in a contract", fn.Name())
+	}
+	if len(args) != len(fn.Params) {
+		return TV{}, fmt.Errorf("Go function %s: %d arguments, want %d", fn.Name(), len(args), len(fn.Params))
+	}
+	saved := vc.muted
+	vc.muted = true
+	defer func() { vc.muted = saved }()
+	fr := vc.newFrame(fn, nil)
+	fr.depth = 1
+	for i, p := range fn.Params {
+		fr.vals[p] = args[i].T
+	}
+	st := e.st.clone()
+	fr.entry = st.clone()
+	fr.run(st, tTrue)
+	if len(fr.rets) == 0 {
+		return TV{}, fmt.Errorf("Go function %s never returns", fn.Name())
+	}
+	var vs, cs []Term
+	for _, r := range fr.rets {
+		vs = append(vs, r.results[0])
+		cs = append(cs, r.guard)
+	}
+	res := vc.mergeTerms(vs, cs, "spec:"+fn.Name())
+	vc.inlined["(in contracts) "+funcName(fn)] = true
+	return TV{res, fn.Signature.Results().At(0).Type()}, nil
 }
 
 func smtNum(s string) string {
@@ -328,6 +442,14 @@ func (e *Env) ident(name string) (TV, error) {
 			}
 		}
 	}
+	// a local variable of the function that is not live at this point (a
+	// return before its declaration): an unconstrained value of its type
+	if e.fr != nil {
+		if as := e.fr.allocsByName[name]; len(as) > 0 && e.fr.cellAlloc[as[0]] {
+			typ := derefType(as[0].Type())
+			return TV{e.vc.fresh("dead:"+name, e.vc.sortOf(typ)), typ}, nil
+		}
+	}
 	// ghost state
 	if g := e.vc.specs.ghost(name); g != nil {
 		return TV{e.vc.heap(e.st, g.heapName(), g.sort()), nil}, nil
@@ -452,6 +574,7 @@ func (e *Env) fieldOf(xv TV, name string) (TV, error) {
 		if f.Name() == name {
 			if isPtr {
 				h := e.vc.heap(e.st, fieldHeapName(t, name), arraySort(SInt, e.vc.sortOf(f.Type())))
+				e.vc.noteHeapType(fieldHeapName(t, name), f.Type(), "field")
 				return TV{sel(h, xv.T), f.Type()}, nil
 			}
 			return TV{Term{"(" + structSel(t, name, i) + " " + xv.T.S + ")", e.vc.sortOf(f.Type())}, f.Type()}, nil
@@ -482,6 +605,7 @@ func (e *Env) index(xv, iv TV, x Expr) (TV, error) {
 	switch u := xv.Typ.Underlying().(type) {
 	case *types.Slice:
 		h := e.vc.heap(e.st, elemHeapName(u.Elem()), arraySort(SInt, arraySort(SInt, e.vc.sortOf(u.Elem()))))
+		e.vc.noteHeapType(elemHeapName(u.Elem()), u.Elem(), "elem")
 		return TV{sel(sel(h, sBase(xv.T)), add(sOff(xv.T), iv.T)), u.Elem()}, nil
 	case *types.Array:
 		return TV{sel(xv.T, iv.T), u.Elem()}, nil
@@ -647,6 +771,18 @@ func (e *Env) call(x *ECall) (TV, error) {
 			return TV{}, fmt.Errorf("in %s: %v", x.Fn, err)
 		}
 		return r, nil
+	}
+	// a Go function of the package (or pkg.F)
+	if fn := e.lookupGoFunc(x.Fn); fn != nil {
+		var args []TV
+		for _, a := range x.Args {
+			v, err := e.eval(a)
+			if err != nil {
+				return TV{}, err
+			}
+			args = append(args, v)
+		}
+		return e.goCall(fn, args)
 	}
 	return TV{}, fmt.Errorf("unknown function %q in contract", x.Fn)
 }
@@ -815,4 +951,23 @@ func (fr *Frame) cellByName(name string, st *State) (ssa.Value, types.Type) {
 		}
 	}
 	return nil, nil
+}
+
+// lookupGoFunc resolves "F" (in the clause's package) or "pkg.F" to a
+// function of the loaded program.
+func (e *Env) lookupGoFunc(name string) *ssa.Function {
+	pkg := e.pkg
+	fname := name
+	if k := strings.LastIndex(name, "."); k >= 0 {
+		pkg = e.importedPkg(name[:k])
+		fname = name[k+1:]
+	}
+	if pkg == nil {
+		return nil
+	}
+	sp := e.vc.prog.SSA.Package(pkg)
+	if sp == nil {
+		return nil
+	}
+	return sp.Func(fname)
 }
